@@ -95,7 +95,10 @@ func mutateInsert(current, value interface{}) (interface{}, interface{}) {
 	}
 	if vc.Kind() == reflect.Map && vv.Kind() == reflect.Map {
 		if vc.IsNil() && vv.Len() > 0 {
-			return value, value
+			// insert into a new map: the mutated value must not share storage
+			// with the mutation value, which is also the reported difference
+			vc = reflect.MakeMapWithSize(vc.Type(), vv.Len())
+			current = vc.Interface()
 		}
 		diff := reflect.MakeMap(vc.Type())
 		iter := vv.MapRange()
